@@ -102,6 +102,17 @@ claim('C10', 'fault_enumeration', 'runtime monitor: lifecycle invariants from /p
       'the old descriptor number, no stale descriptor number) evaluated after every operation.',
       'Blocking wait() only issued when /proc shows the child exiting; delays lowered via configuration attributes.', '5/C10')
 
+claim('C12', 'exploration', 'runtime monitor: run() oracle against a scripted dialogue child that records what it printed/received',
+      'Generated dialogues (prompts, payloads up to 300 KB, pauses around the timeout, exit codes) x event tables (dict/list, '
+      'string/function/method, callbacks returning None/str/True, EOF and TIMEOUT keys, overlapping patterns); output, '
+      'responses received by the child, callback log and exit status compared with the expectation by construction; '
+      'non-return within 20 s is a refuting event.',
+      'Raw-mode dialogue child; pauses chosen far from the timeout so the side they fall on is load independent.', '5/C12')
+claim('C16', 'exploration', 'runtime monitor: REPL oracle over command families with output known by construction',
+      'Random command sequences (bash and python REPLs, blocking and awaited) incl. multi-line blocks, large outputs, '
+      'no-newline outputs and incomplete constructs; every return value compared with the generator\'s expected text.',
+      'Violations must reproduce in two further serial runs (replwrap has hard-coded 1 s waits); zsh absent.', '5/C16')
+
 PENDING = {
 }
 
